@@ -1,6 +1,258 @@
+"""C11 - Tensor operators agree with element-wise and matrix arithmetic.
+
+Observed at Tensor.__add__/__radd__/__sub__/__rsub__/__mul__/__rmul__/__matmul__, results decoded
+from the raw arrays.  Oracle: exact dense arithmetic on the operands' decoded contents; the only
+acceptable exceptions are the documented ValueError shape errors and NoKernelFoundError; for
+natural-order operands the result format follows the documented rule."""
+
+from __future__ import annotations
+
+import itertools
+import json
+import random
+from fractions import Fraction
+
+from .. import controls, gen, taco
+from ..common import Run, run_shards
+
 PID = "C11"
 LEVEL = "exploration"
+RULE = ("operator calls over all operand format pairs of order 0..2 (exhaustive) and order 3 (sampled; exhaustive 48x48 in thorough) x "
+        "dimensions incl. 0/1 x sparsity patterns incl. empty and explicit zeros x scalars {0,1,-2,0.5,True,Fraction(1,2)} on either "
+        "side; @ for orders (1,1),(2,1),(1,2),(2,2) and rejected orders/shapes; non-trivial = an operand stores a non-zero and a "
+        "tensor was returned; distinct by (operator, formats, dims, contents)")
+
+SCALARS = [0, 1, -2, 0.5, True, Fraction(1, 2), 3]
+
+
+def natural(fmt):
+    return tuple(fmt[1]) == tuple(range(len(fmt[1])))
+
+
+def make(rng, dims, fmt):
+    entries = gen.random_entries(rng, dims, explicit_zero_p=0.1)
+    return taco.to_tensor(entries, dims, fmt[0], fmt[1]), entries
+
+
+def decode(rec, t, what, ctx):
+    try:
+        raw = taco.read_raw(t)
+        return raw, taco.validate(*raw)
+    except taco.Malformed as m:
+        rec.violation(f"malformed-result:{m.rule}", {"operator": what, **ctx, "detail": m.detail})
+        rec.count("c02_operator_outputs_malformed")
+        return None, None
+
+
+def expect_call(rec, fn, what, ctx, want_dims, want_value, want_format=None, may_refuse=True, must_raise=False):
+    """Run one operator call and judge it."""
+    from tensora.desugar import NoKernelFoundError
+
+    rec.evaluated()
+    rec.countd("operators", what)
+    try:
+        r = fn()
+    except ValueError as e:
+        if must_raise:
+            rec.count("shape_errors_raised")
+            return
+        rec.violation("unexpected-ValueError", {"operator": what, **ctx, "error": str(e)[:200]})
+        return
+    except NoKernelFoundError:
+        if must_raise:
+            rec.violation("shape-error-expected-but-NoKernelFound", {"operator": what, **ctx})
+        rec.count("refused_no_kernel")
+        return
+    except Exception as e:  # noqa: BLE001
+        rec.violation(f"raised:{type(e).__name__}", {"operator": what, **ctx, "error": str(e)[:200]})
+        return
+    if must_raise:
+        rec.violation("inconsistent-shapes-accepted", {"operator": what, **ctx})
+        return
+    if r is NotImplemented:
+        rec.violation("returned-NotImplemented", {"operator": what, **ctx})
+        return
+    raw, dec = decode(rec, r, what, ctx)
+    if raw is None:
+        return
+    rec.count("c02_operator_outputs_validated")
+    if tuple(raw[0]) != tuple(want_dims):
+        rec.violation("result-dimensions", {"operator": what, **ctx, "got": raw[0], "want": list(want_dims)})
+        return
+    for c in itertools.product(*(range(d) for d in want_dims)):
+        w = want_value(c)
+        g = dec.get(c, 0.0)
+        if Fraction(g) != w:
+            rec.violation("result-value", {"operator": what, **ctx, "coordinate": list(c), "got": g, "want": str(w)})
+            return
+    if set(dec) - set(itertools.product(*(range(d) for d in want_dims))):
+        rec.violation("result-stores-coordinate-outside-dimensions", {"operator": what, **ctx})
+        return
+    if want_format is not None:
+        got = "".join(raw[1])
+        if got != want_format or tuple(raw[2]) != tuple(range(len(raw[1]))):
+            rec.violation("result-format", {"operator": what, **ctx, "got": taco.fmt_text(raw[1], raw[2]), "want": want_format})
+            return
+    rec.count("results_correct")
+    return dec
+
+
+def val(entries, c):
+    return Fraction(entries.get(c, 0.0))
+
+
+def binary_cases(rec, rng, fa, fb, dims, note=""):
+    a, ea = make(rng, dims, fa)
+    b, eb = make(rng, dims, fb)
+    ctx = {"left_format": taco.fmt_text(*fa), "right_format": taco.fmt_text(*fb), "dimensions": list(dims),
+           "left": {str(k): v for k, v in ea.items()}, "right": {str(k): v for k, v in eb.items()}}
+    nat = natural(fa) and natural(fb)
+    union = "".join("d" if x == "d" or y == "d" else "s" for x, y in zip(fa[0], fb[0])) if nat else None
+    inter = "".join("d" if x == "d" and y == "d" else "s" for x, y in zip(fa[0], fb[0])) if nat else None
+    nz = any(v != 0 for v in ea.values()) or any(v != 0 for v in eb.values())
+    for what, fn, wv, wf in (
+        ("a+b", lambda: a + b, lambda c: val(ea, c) + val(eb, c), union),
+        ("a-b", lambda: a - b, lambda c: val(ea, c) - val(eb, c), union),
+        ("a*b", lambda: a * b, lambda c: val(ea, c) * val(eb, c), inter),
+    ):
+        d = expect_call(rec, fn, what, ctx, dims, wv, wf)
+        if d is not None and nz:
+            rec.nontrivial(hash((what, ctx["left_format"], ctx["right_format"], tuple(dims), tuple(sorted(ea.items())), tuple(sorted(eb.items())))))
+    return a, ea, ctx
+
+
+def scalar_cases(rec, rng, fa, dims):
+    a, ea = make(rng, dims, fa)
+    s = rng.choice(SCALARS)
+    fs = Fraction(s) if not isinstance(s, bool) else Fraction(int(s))
+    ctx = {"format": taco.fmt_text(*fa), "dimensions": list(dims), "tensor": {str(k): v for k, v in ea.items()}, "scalar": repr(s)}
+    nat = natural(fa)
+    dense = "d" * len(dims) if True else None
+    same = "".join(fa[0]) if nat else None
+    for what, fn, wv, wf in (
+        ("a+s", lambda: a + s, lambda c: val(ea, c) + fs, dense),
+        ("s+a", lambda: s + a, lambda c: fs + val(ea, c), dense),
+        ("a-s", lambda: a - s, lambda c: val(ea, c) - fs, dense),
+        ("s-a", lambda: s - a, lambda c: fs - val(ea, c), dense),
+        ("a*s", lambda: a * s, lambda c: val(ea, c) * fs, same),
+        ("s*a", lambda: s * a, lambda c: fs * val(ea, c), same),
+    ):
+        d = expect_call(rec, fn, what, ctx, dims, wv, wf if (nat or wf == dense) else None)
+        if d is not None and any(v != 0 for v in ea.values()):
+            rec.nontrivial(hash((what, ctx["format"], tuple(dims), tuple(sorted(ea.items())), repr(s))))
+
+
+def matmul_cases(rec, rng, fa, fb, n, k, m):
+    oa, ob = len(fa[0]), len(fb[0])
+    da = (n, k) if oa == 2 else (k,)
+    db = (k, m) if ob == 2 else (k,)
+    a, ea = make(rng, da, fa)
+    b, eb = make(rng, db, fb)
+    ctx = {"left_format": taco.fmt_text(*fa), "right_format": taco.fmt_text(*fb), "left_dimensions": list(da), "right_dimensions": list(db),
+           "left": {str(x): v for x, v in ea.items()}, "right": {str(x): v for x, v in eb.items()}}
+    nat = natural(fa) and natural(fb)
+    if oa == 1 and ob == 1:
+        dims, wv, wf = (), (lambda c: sum(val(ea, (j,)) * val(eb, (j,)) for j in range(k))), ""
+    elif oa == 2 and ob == 1:
+        dims, wv = (n,), (lambda c: sum(val(ea, (c[0], j)) * val(eb, (j,)) for j in range(k)))
+        wf = fa[0][0] if nat else None
+    elif oa == 1 and ob == 2:
+        dims, wv = (m,), (lambda c: sum(val(ea, (j,)) * val(eb, (j, c[0])) for j in range(k)))
+        wf = fb[0][1] if nat else None
+    else:
+        dims, wv = (n, m), (lambda c: sum(val(ea, (c[0], j)) * val(eb, (j, c[1])) for j in range(k)))
+        wf = (fa[0][0] + fb[0][1]) if nat else None
+    d = expect_call(rec, lambda: a @ b, "a@b", ctx, dims, wv, wf)
+    if d is not None and (any(v for v in ea.values()) and any(v for v in eb.values())):
+        rec.nontrivial(hash(("@", ctx["left_format"], ctx["right_format"], tuple(da), tuple(db), tuple(sorted(ea.items())), tuple(sorted(eb.items())))))
+    # inconsistent inner dimension must raise ValueError
+    if rng.random() < 0.3:
+        db2 = (k + 1, m) if ob == 2 else (k + 1,)
+        b2, _ = make(rng, db2, fb)
+        expect_call(rec, lambda: a @ b2, "a@b-mismatch", {**ctx, "right_dimensions": list(db2)}, (), None, must_raise=True)
+
+
+def shard(rec, tier, index, n_shards):
+    rng = random.Random(f"C11-{rec.seed}-{index}")
+    sizes = [0, 1, 2, 3, 3, 4]
+    work = []
+    for order in (0, 1, 2):
+        fs = taco.all_formats(order)
+        for fa in fs:
+            for fb in fs:
+                work.append(("bin", fa, fb))
+    f3 = taco.all_formats(3)
+    if tier == "thorough":
+        for fa in f3:
+            for fb in f3:
+                work.append(("bin", fa, fb))
+    else:
+        r3 = random.Random(f"C11-order3-{rec.seed}")
+        for _ in range(150):
+            work.append(("bin", r3.choice(f3), r3.choice(f3)))
+    for order in (0, 1, 2, 3):
+        for fa in taco.all_formats(order):
+            work.append(("scalar", fa, None))
+    for oa, ob in ((1, 1), (2, 1), (1, 2), (2, 2)):
+        for fa in taco.all_formats(oa):
+            for fb in taco.all_formats(ob):
+                work.append(("mat", fa, fb))
+    reps = 5 if tier == "quick" else 12
+    for kind, fa, fb in work[index::n_shards]:
+        for _ in range(reps):
+            if kind == "bin":
+                dims = tuple(rng.choice(sizes) for _ in fa[0])
+                a, ea, ctx = binary_cases(rec, rng, fa, fb, dims)
+                if len(dims) and rng.random() < 0.3:
+                    d2 = list(dims)
+                    d2[rng.randrange(len(d2))] += 1
+                    b2, _ = make(rng, tuple(d2), fb)
+                    expect_call(rec, lambda: a + b2, "a+b-mismatch", {**ctx, "right_dimensions": d2}, (), None, must_raise=True)
+            elif kind == "scalar":
+                scalar_cases(rec, rng, fa, tuple(rng.choice(sizes) for _ in fa[0]))
+            else:
+                matmul_cases(rec, rng, fa, fb, rng.choice(sizes), rng.choice(sizes), rng.choice(sizes))
+    # rejected orders for @
+    if index == 0:
+        for oa, ob in ((0, 1), (1, 0), (3, 1), (2, 3), (0, 0), (3, 3)):
+            a, _ = make(rng, (2,) * oa, taco.all_formats(oa)[0])
+            b, _ = make(rng, (2,) * ob, taco.all_formats(ob)[0])
+            expect_call(rec, lambda: a @ b, "a@b-bad-order", {"orders": [oa, ob]}, (), None, must_raise=True)
+        rec.sample({"operator": "a+b", "left_format": "ds", "right_format": "sd", "note": "see counters for the per-operator totals"})
 
 
 def operator_outputs_for_c02(run, tier):
-    run.counters["operator_outputs"] = "not built yet"
+    """C02's operator leg: results of the arithmetic operators validated raw (counters c02_*)."""
+    rec = Run(PID, tier, LEVEL, "")
+    rec.seed = run.seed
+    for i in range(4):
+        shard(rec, "quick", i * 3, 12)
+    run.counters["operator_outputs_validated"] = rec.counters.get("c02_operator_outputs_validated", 0)
+    for cls, w in rec.violations.items():
+        if cls.startswith("malformed-result"):
+            run.violation(f"operator-{cls}", w)
+    if run.counters["operator_outputs_validated"] < 200:
+        run.inconclusive_because("too few operator results validated")
+
+
+def main(tier):
+    run = Run(PID, tier, LEVEL, RULE)
+    bad = controls.all_fired(controls.validator_controls())
+    for b in bad:
+        run.inconclusive_because(f"positive control did not fire: {b}")
+    run_shards(run, "c11", 12 if tier == "quick" else 16, timeout_s=900 if tier == "quick" else 14400)
+    if run.counters.get("results_correct", 0) < 2000:
+        run.inconclusive_because("too few operator results judged")
+    if run.counters.get("shape_errors_raised", 0) < 20:
+        run.inconclusive_because("shape-mismatch probes did not run")
+    run.assumptions += [
+        "exact arithmetic on dyadic operand values; operands are built through taco_structure_to_cffi from the independent codec",
+        "result format rule is only checked for natural-order operands, as the property states",
+    ]
+    return run.finish()
+
+
+def replay(path):
+    d = json.load(open(path))
+    print("replay witness:", json.dumps(d["witness"])[:800])
+    return 0
